@@ -352,6 +352,11 @@ def run_obligation(obl: Obl, repo_root=None):
                 outcome = "raises"
                 vc.clauses.append((f"no_unexpected_exception", False))
                 vc._exc = f"{e.name} at {e.where}"
+            except Unsupported as e:
+                # the clauses stated BEFORE the construct outside the subset are still decided on this path (a refutation
+                # among them is definitive); the obligation as a whole can no longer be discharged
+                outcome = "partial"
+                rec["partial_unsupported"] = str(e)
             vc.clauses.extend(getattr(vc.I, "side_clauses", []))
             for i in range(len(dec), len(path.decisions)):
                 stack.append(path.decisions[:i] + [False])
@@ -399,6 +404,9 @@ def run_obligation(obl: Obl, repo_root=None):
             rec["status"] = "undecided"
         elif not sts or rec["paths_covered"] == 0:
             rec["status"] = "vacuous"
+        if rec.get("partial_unsupported") and rec["status"] != "refuted":
+            rec["status"] = "unsupported"
+            rec["error"] = rec["partial_unsupported"]
         missing = [q for q in obl.functions if q not in rec["functions"]]
         if missing and rec["status"] == "discharged":
             rec["status"] = "vacuous"
